@@ -74,9 +74,24 @@ def pre_build(repo: Path, lean: Path) -> list[str]:
 
 
 def _restore() -> None:
+    """put back the last generated file that is KNOWN to build (`.good`), else the file that was there before this run"""
     t, prev = _state["target"], _state["prev"]
-    if t is not None and prev is not None and t.read_text() != prev:
-        t.write_text(prev)
+    if t is None:
+        return
+    good = t.with_name(t.name + ".good")
+    text = good.read_text() if good.exists() else prev
+    if text is not None and t.read_text() != text:
+        t.write_text(text)
+
+
+def build_ok(lean: Path) -> None:
+    t = Path(lean) / "PyOak" / "Gen" / "Origin.lean"
+    good = t.with_name(t.name + ".good")
+    if t.exists() and (not good.exists() or good.read_text() != t.read_text()):
+        good.write_text(t.read_text())
+
+
+restore_generated = _restore
 
 
 def build_failure_is_tie(txt: str) -> bool:
